@@ -43,6 +43,8 @@ class _H(_R):
             return '_u(_p(%d), %s)' % (a[1], n[a[1]])
         if k == 'w':
             return '(%s := _v([%d], %s))' % (n[a[1]], a[1], self.args(a[2]))
+        if k == 'callx':
+            return '_e(%s)' % self.args(a[1])
         if k == 'lam':
             ps = self.params(a[1])
             info = [(kind, b) for kind, b, d, ann in a[1]]
@@ -356,6 +358,8 @@ def param_kinds(shape):
                 E(a[2])
             elif a[0] == 'w':
                 E(a[2])
+            elif a[0] == 'callx':
+                E(a[1])
             elif a[0] == 'comp':
                 for bs, it, ifs in a[2]:
                     E(it)
